@@ -760,8 +760,11 @@ class Check(BaseCheck):
                               f'--- program ---\n{prog.src}--- emitted ---\n{b.text}')
                     continue
                 if not ok_ret:
-                    r.violate({'kind': 'return value', 'diff': diff_class(exp_ret, ret), 'family': prog.desc[0],
-                               'shape': prog.shape, 'unbox': b.opts[0][1], 'optimize': b.opts[0][0]}, case,
+                    sig = ({'kind': 'return value', 'family': prog.desc[0], **prog.sig, 'unbox': b.opts[0][1]}
+                           if prog.sig else
+                           {'kind': 'return value', 'diff': diff_class(exp_ret, ret), 'family': prog.desc[0],
+                            'shape': prog.shape, 'unbox': b.opts[0][1], 'optimize': b.opts[0][0]})
+                    r.violate(sig, case,
                               f'{prog.shape} [{"; ".join(opt_label(o) for o in b.opts)}] args={vec!r}\n'
                               f'{first_diff(exp_ret, ret)}\ninterpreter: {show(exp_ret)}\ncompiled:    {show(ret)}\n'
                               f'--- program ---\n{prog.src}--- emitted ---\n{b.text}')
